@@ -195,3 +195,45 @@ func TestVerif_C04_SplitSweep(t *testing.T) {
 	}
 	rec.Sample("sweep", map[string]interface{}{"lengths": fmt.Sprintf("0..%d", L), "splits": "every k in 0..len, Sum(nil) between the writes"})
 }
+
+// Messages whose bit length does not fit in 32 bits (thorough tier only: 2^29+17 bytes are hashed).
+func TestVerif_C04_LongMessage(t *testing.T) {
+	rec := stats.Get("C04", "long-message")
+	rec.Rule("thorough only: one message of 2^29+17 bytes (bit length 2^32+136, does not fit in 32 bits) written in 1 MiB chunks with a Sum in the middle, and one of 2^29-1 bytes; digest vs the streaming form of the reference. 2 cases, both non-trivial (length counter above 2^32 bits).")
+	t.Cleanup(stats.FlushAll)
+	if !vt.Thorough() {
+		rec.Note("skipped in the quick tier (hashes 1 GiB)")
+		t.Skip("thorough only")
+	}
+	if si, _ := vt.Shard(); si != 0 {
+		t.Skip("shard 0 only")
+	}
+	chunk := make([]byte, 1<<20)
+	for i := range chunk {
+		chunk[i] = byte(i*7 + i>>9)
+	}
+	for _, total := range []int{1<<29 + 17, 1<<29 - 1} {
+		h := sm3.New()
+		ref := sm3ref.NewStream()
+		left := total
+		for left > 0 {
+			n := len(chunk)
+			if n > left {
+				n = left
+			}
+			h.Write(chunk[:n])
+			ref.Write(chunk[:n])
+			left -= n
+			if left == total/2 {
+				h.Sum(nil)
+			}
+		}
+		want := ref.Sum()
+		got := h.Sum(nil)
+		rec.Case(uint64(total), true, "long")
+		rec.Sample("long", map[string]interface{}{"bytes": total, "digest": fmt.Sprintf("%x", want)})
+		if !bytes.Equal(got, want[:]) {
+			vt.Fail(t, rec, "C04:sum:digest", "digest mismatch for a message of %d bytes (bit length %d)\n got %x\nwant %x", total, uint64(total)*8, got, want)
+		}
+	}
+}
